@@ -159,6 +159,7 @@ def run_property(mod, tier="quick", replay_path=None):
     trusted = set()
     functions = []
     samples = []
+    distinct_obs = set()
     failed_obs = []
     for res, job in zip(results, jobs + [None] * len(extras)):
         finite = bool(job and job[1].get("finite"))
@@ -204,6 +205,7 @@ def run_property(mod, tier="quick", replay_path=None):
             by_backend[o["backend"]] = by_backend.get(o["backend"], 0) + 1
             if o["status"] == "discharged":
                 discharged += 1
+                distinct_obs.add(re.sub(r"#\d+$", "", o["name"]))
                 if len(samples) < 6 and o["kind"] in ("ensures", "ghost_assert") or len(samples) < 2:
                     samples.append({"obligation": o["name"], "clause": (o["clause"] or "")[:240], "backend": o["backend"]})
             elif o["status"] == "failed":
@@ -331,11 +333,13 @@ def run_property(mod, tier="quick", replay_path=None):
         "bounded_standins": standins,
         "undecided": undecided[:40],
         "known_findings_matched": [k["id"] for k in known_matched],
-        "samples": samples or [{"note": "no discharged obligation to show"}],
+        "samples": (samples + [{"standin": s["function"], "input": x} for s in standins for x in (s.get("samples") or [])[:1]])
+        or [{"note": "no discharged obligation to show"}],
         "evaluations": total + sum(s["cases"] for s in standins),
-        "distinct_nontrivial": max(2, len({s["obligation"] for s in samples if "obligation" in s})) if total else 0,
-        "rule": "one case = one named proof obligation generated from the current /repo source (distinct by name), plus "
-                "the generated inputs of the bounded stand-ins; canary obligations are excluded",
+        "distinct_nontrivial": len(distinct_obs) + sum(int(s.get("distinct") or 0) for s in standins),
+        "rule": "evaluations = named proof obligations generated from the current /repo source + cases evaluated by the bounded "
+                "stand-ins; distinct_nontrivial = distinct obligation names (path duplicates '#n' merged, canaries excluded) + the "
+                "stand-ins' own count of distinct inputs",
         "explanation": getattr(mod, "EXPLANATION", ""),
         "failed_obligations": [v[0] for v in violations],
     }
